@@ -234,8 +234,8 @@ func buildTree(root string, t task) {
 	case "big-links":
 		// a few larger files (walked before the links: a walk takes a while) plus file links, a chain of file
 		// links, directory links and a chain of directory links
-		for j := 0; j < 3; j++ {
-			writeFile(filepath.Join(root, "src", fmt.Sprintf("a-big-%d.bin", j)), strings.Repeat(fmt.Sprintf("%s/%d|", tag, j), 40000))
+		for j := 0; j < 2; j++ {
+			writeFile(filepath.Join(root, "src", fmt.Sprintf("a-big-%d.bin", j)), strings.Repeat(fmt.Sprintf("%s/%d|", tag, j), 20000))
 		}
 		must(os.Symlink(filepath.Join(root, "src", "main.c"), filepath.Join(root, "src", "l1.c")))
 		must(os.Symlink(filepath.Join(root, "src", "l1.c"), filepath.Join(root, "src", "l2.c")))
